@@ -22,8 +22,8 @@ Lemma wr_hold th : is_wr th = true -> is_hold th = true.
 Proof. unfold is_wr, is_hold. destruct (t_pc th); auto. Qed.
 
 Ltac cnts Hn :=
-  rewrite ?(cnt_upd _ _ _ _ _ Hn);
-  cbn [is_wset is_wr is_wy is_rfl is_wcs is_A is_hold early t_pc t_rest at_pc begin].
+  rewrite ?(cnt_upd _ _ _ _ _ Hn) in *;
+  cbn [is_wset is_wr is_wy is_rfl is_wcs is_A is_hold early t_pc t_rest at_pc begin] in *.
 
 (* ---- a waiting reader ------------------------------------------------------ *)
 Definition rd_waits (t : nat) (w : Z) (c : cfg) : Prop :=
@@ -82,9 +82,11 @@ Proof.
   unfold step, wbudget, wents. destruct (nth_error (thrs c) u) as [uh|] eqn:Hu; [|lia].
   destruct uh as [p r]. cbn [t_pc t_rest].
   destruct p; repeat match goal with |- context[if ?b then _ else _] => destruct b eqn:? end;
-    cbn [log thrs wout sumz]; cnts Hu; try lia;
-    try (destruct r as [|[|] r]; cbn [begin t_pc is_wset is_wr]; lia).
-  all: try (destruct (G1 _ _ Hu eq_refl) as (Ha & Hb & Hc); lia).
-  all: try (destruct (G2 _ _ Hu eq_refl ltac:(lia)) as (Ha & Hb & Hc); lia).
-  all: try (pose proof (G3 _ Hu eq_refl) as Ha; cbn [is_wset t_pc] in Ha; lia).
+    cbn [log thrs wout sumz] in *; cnts Hu; try lia;
+    try (destruct r as [|[|] r]; cbn [begin t_pc is_wset is_wr] in *; lia).
+  all: try (destruct (G1 _ _ eq_refl eq_refl) as (Ha & Hb & Hc); lia).
+  all: try (destruct (G2 _ _ eq_refl eq_refl ltac:(lia)) as (Ha & Hb & Hc); lia).
+  all: try (pose proof (G3 _ eq_refl eq_refl) as Ha; cbn [is_wset t_pc] in Ha; lia).
+  all: destruct r as [|[|] r]; cbn [begin t_pc is_wset is_wr] in *;
+    pose proof (G3 _ eq_refl eq_refl) as Ha; cbn [is_wset t_pc] in Ha; lia.
 Qed.
